@@ -391,6 +391,10 @@ def common_list(a, b, fnode):
 
 
 def textually_before(a, b):
+    """a precedes b in document order of the analysed (possibly inlined) function."""
+    oa, ob = getattr(a, "_ord", None), getattr(b, "_ord", None)
+    if oa is not None and ob is not None:
+        return oa < ob
     return (a.lineno, a.col_offset) < (b.lineno, b.col_offset)
 
 
